@@ -1,9 +1,9 @@
 package clickhouse_transpiler
 
 import (
-	"github.com/metrico/qryn/reader/logql/logql_transpiler_v2/clickhouse_planner"
 	"github.com/metrico/qryn/reader/logql/logql_transpiler_v2/shared"
 	sql "github.com/metrico/qryn/reader/utils/sql_select"
+	"time"
 )
 
 type AllValuesRequestPlanner struct {
@@ -16,7 +16,7 @@ func (a *AllValuesRequestPlanner) Process(ctx *shared.PlannerContext) (sql.ISele
 		Select(sql.NewSimpleCol("val", "val")).
 		From(sql.NewRawObject(ctx.TracesKVDistTable)).
 		AndWhere(
-			sql.Ge(sql.NewRawObject("date"), sql.NewStringVal(clickhouse_planner.FormatFromDate(ctx.From))),
-			sql.Le(sql.NewRawObject("date"), sql.NewStringVal(clickhouse_planner.FormatFromDate(ctx.To))),
+			sql.Ge(sql.NewRawObject("date"), sql.NewStringVal(ctx.From.UTC().Add(-24*time.Hour).Format("2006-01-02"))),
+			sql.Le(sql.NewRawObject("date"), sql.NewStringVal(ctx.To.UTC().Add(24*time.Hour).Format("2006-01-02"))),
 			sql.Eq(sql.NewRawObject("key"), sql.NewStringVal(a.Key))), nil
 }
